@@ -15,7 +15,7 @@ opaque_p = jcore.Primitive('opaque')
 opaque_p.multiple_results = True
 
 
-def _abs(*avals, name, out_shapes, out_dtypes, batch, static):
+def _abs(*avals, name, out_shapes, out_dtypes, batch, static, argnames):
   return [_core.ShapedArray(tuple(batch) + tuple(s), d) for s, d in zip(out_shapes, out_dtypes)]
 
 
@@ -29,7 +29,7 @@ def _impl(*args, name, **kw):
 opaque_p.def_impl(_impl)
 
 
-def _batch(args, dims, *, name, out_shapes, out_dtypes, batch, static):
+def _batch(args, dims, *, name, out_shapes, out_dtypes, batch, static, argnames):
   size = next(a.shape[d] for a, d in zip(args, dims) if d is not None)
   new = []
   for a, d in zip(args, dims):
@@ -39,7 +39,7 @@ def _batch(args, dims, *, name, out_shapes, out_dtypes, batch, static):
       a = jnp.moveaxis(a, d, 0)
     new.append(a)
   outs = opaque_p.bind(*new, name=name, out_shapes=out_shapes, out_dtypes=out_dtypes,
-                       batch=(size,) + tuple(batch), static=static)
+                       batch=(size,) + tuple(batch), static=static, argnames=argnames)
   return outs, [0] * len(outs)
 
 
@@ -47,21 +47,63 @@ batching.primitive_batchers[opaque_p] = _batch
 
 
 def _is_arr(x):
-  return isinstance(x, (jax.Array, np.ndarray, float, int, bool, np.generic)) or hasattr(x, 'aval')
+  # python scalars are static (shapes, flags, step sizes); arrays and tracers are operands
+  return isinstance(x, (jax.Array, np.ndarray, np.generic)) or hasattr(x, 'aval')
 
 
 def opaque(name, fn):
   """wrap fn: at trace time the output structure comes from eval_shape of the REAL callee, and an
-  `opaque` equation is emitted instead of the callee's body."""
+  `opaque` equation is emitted instead of the callee's body.  Array-valued arguments become operands
+  (params['argnames'] gives the parameter name of each), python scalars / None are static."""
+  import inspect
+  try:
+    sig = inspect.signature(fn)
+  except (TypeError, ValueError):
+    sig = None
+
   def wrapped(*args, **kw):
-    flat, tree = jax.tree_util.tree_flatten((args, kw))
+    items = None
+    if sig is not None:
+      try:
+        ba = sig.bind(*args, **kw)
+        items = list(ba.arguments.items())
+      except TypeError:
+        items = None
+    if items is None:
+      items = [('arg%d' % i, a) for i, a in enumerate(args)] + sorted(kw.items())
+    flat, names = [], []
+    for nm, v in items:
+      ls = jax.tree_util.tree_leaves(v, is_leaf=lambda x: x is None)
+      flat += ls
+      names += [nm] * len(ls)
     arr_idx = [i for i, x in enumerate(flat) if _is_arr(x)]
-    static = tuple((i, repr(x)) for i, x in enumerate(flat) if i not in arr_idx)
-    out_struct = jax.eval_shape(lambda *a, **k: fn(*a, **k), *args, **kw)
+    static = tuple((names[i], repr(x)) for i, x in enumerate(flat) if i not in arr_idx)
+
+    def on_arrays(*arrs):
+      it = iter(arrs)
+      def sub(v):
+        return jax.tree_util.tree_map(lambda x: next(it) if _is_arr(x) else x, v, is_leaf=lambda x: x is None)
+      vals = {nm: sub(v) for nm, v in items}
+      if sig is not None and all(not nm.startswith('arg') or nm in sig.parameters for nm in vals):
+        pos, kws = [], {}
+        for nm, v in vals.items():
+          prm = sig.parameters.get(nm)
+          if prm is not None and prm.kind == inspect.Parameter.VAR_POSITIONAL:
+            pos += list(v)
+          elif prm is not None and prm.kind == inspect.Parameter.VAR_KEYWORD:
+            kws.update(v)
+          elif prm is not None and prm.kind in (inspect.Parameter.POSITIONAL_ONLY, inspect.Parameter.POSITIONAL_OR_KEYWORD):
+            pos.append(v)
+          else:
+            kws[nm] = v
+        return fn(*pos, **kws)
+      return fn(*[v for nm, v in vals.items() if nm.startswith('arg')], **{nm: v for nm, v in vals.items() if not nm.startswith('arg')})
+    out_struct = jax.eval_shape(on_arrays, *[flat[i] for i in arr_idx])
     oflat, otree = jax.tree_util.tree_flatten(out_struct)
     outs = opaque_p.bind(*[jnp.asarray(flat[i]) for i in arr_idx], name=name,
                          out_shapes=tuple(tuple(o.shape) for o in oflat),
-                         out_dtypes=tuple(np.dtype(o.dtype) for o in oflat), batch=(), static=static)
+                         out_dtypes=tuple(np.dtype(o.dtype) for o in oflat), batch=(), static=static,
+                         argnames=tuple(names[i] for i in arr_idx))
     return jax.tree_util.tree_unflatten(otree, outs)
   wrapped.__wrapped__ = fn
   wrapped.__name__ = getattr(fn, '__name__', name)
@@ -95,3 +137,22 @@ def cut(*targets):
   finally:
     for obj, a, real in reversed(saved):
       setattr(obj, a, real)
+
+
+def arg(P, ins, name, default=None):
+  """value of the named argument at an opaque call: operand (array) or static python value"""
+  import ast
+  for nm, x in zip(P['argnames'], ins):
+    if nm == name:
+      return x
+  for nm, r in P['static']:
+    if nm == name:
+      try:
+        return ast.literal_eval(r)
+      except Exception:      # noqa: BLE001
+        return r
+  return default
+
+
+def args_named(P, ins, name):
+  return [x for nm, x in zip(P['argnames'], ins) if nm == name]
